@@ -657,3 +657,64 @@ func TestVerifReplay(t *testing.T) {
 	}
 	return "", "", "", false
 }
+
+// ---------- C11 ----------
+func init() { replayGens["c11"] = replayC11 }
+
+func replayC11(o *Obligation) (string, string, string, bool) {
+	if !strings.HasPrefix(o.Name, "ds.set.") {
+		return "", "", "", false
+	}
+	src := `package ds
+
+import (
+	"testing"
+	"time"
+)
+
+// a ReadableSet whose iteration lets a writer queue on the target set before the callback runs
+type queueWriterSet struct {
+	ReadableSet[int]
+	before func()
+}
+
+func (q *queueWriterSet) ForEach(cb func(int) error) error {
+	q.before()
+	return q.ReadableSet.ForEach(cb)
+}
+func (q *queueWriterSet) Range(cb func(int)) {
+	q.before()
+	q.ReadableSet.Range(cb)
+}
+
+// every Set method must return: no combination of methods may deadlock
+func TestVerifReplay(t *testing.T) {
+	type op struct {
+		name string
+		run  func(s Set[int], other ReadableSet[int])
+	}
+	ops := []op{
+		{"DeleteAll", func(s Set[int], o ReadableSet[int]) { s.DeleteAll(o) }},
+		{"AddAll", func(s Set[int], o ReadableSet[int]) { s.AddAll(o) }},
+		{"Replace", func(s Set[int], o ReadableSet[int]) { s.Replace(o) }},
+	}
+	for _, o := range ops {
+		s := NewSet(1, 2, 3)
+		other := &queueWriterSet{ReadableSet: NewSet(2, 3, 4)}
+		other.before = func() {
+			// a concurrent Apply queues for the write lock while the bulk operation is in progress
+			go s.Apply(NewSetMutations[int]().WithAddedElements(NewSet(9)))
+			time.Sleep(100 * time.Millisecond)
+		}
+		done := make(chan struct{})
+		go func() { o.run(s, other); close(done) }()
+		select {
+		case <-done:
+		case <-time.After(3 * time.Second):
+			t.Fatalf("REPLAY-VIOLATION ds.Set.%s did not return within 3s while an Apply was queued (re-entrant read lock on applyMutex)", o.name)
+		}
+	}
+}
+`
+	return "ds", ".", src, true
+}
